@@ -470,6 +470,44 @@ def case_solver(ctx, A, mode):
 
 
 # ---------------------------------------------------------------------------------------------------------------
+# level 1b: strongly correlated systems (n = 5, columns nearly collinear: G^T G + 1e-3 I of rank-2/3 G plus 10% noise,
+# entries rounded to 1/64, condition numbers 1.5e3 - 1.5e4).  Their decision tree over the full box is beyond nlsat
+# (already n = 4 with condition number 25 left regions undecided), so the right-hand side runs over a low-dimensional
+# affine family  b = b0 + sum_k t_k e_{i_k}  through a noise-like b0, t_k symbolic in [-SPAN, SPAN].  On these systems
+# the active-set iterations exchange indices (one enters, another leaves) several times in a row.
+SPAN = 4
+CORR5 = [
+    {"A": [[2.078125, -0.71875, 1.546875, -2.828125, 1.1875], [-0.71875, 0.703125, -0.640625, 1.53125, 0.796875], [1.546875, -0.640625, 1.1875, -2.25, 0.609375], [-2.828125, 1.53125, -2.25, 4.578125, -0.15625], [1.1875, 0.796875, 0.609375, -0.15625, 4.28125]],
+     "b0": [-0.5625, 1.125, -0.5, 1.8125, 1.5]},      # condition number 1513
+    {"A": [[1.796875, 2.703125, 3.109375, -2.109375, 6.390625], [2.703125, 12.8125, 5.265625, -0.96875, 11.0], [3.109375, 5.265625, 5.578125, -3.578125, 11.59375], [-2.109375, -0.96875, -3.578125, 3.09375, -7.421875], [6.390625, 11.0, 11.59375, -7.421875, 24.671875]],
+     "b0": [0.9375, 2.4375, 1.6875, -0.8125, 3.375]},      # condition number 4498
+    {"A": [[4.4375, 9.28125, 4.234375, 2.140625, -1.640625], [9.28125, 57.546875, 28.796875, -23.625, -13.171875], [4.234375, 28.796875, 14.484375, -12.65625, -6.65625], [2.140625, -23.625, -12.65625, 22.0625, 6.390625], [-1.640625, -13.171875, -6.65625, 6.390625, 3.125]],
+     "b0": [3.6875, 6.9375, 3.25, 1.8125, -0.9375]},      # condition number 7164
+]
+
+
+def body_family(inp, A, b0, dirs, mode):
+    t = list(np.asarray(inp["t"], dtype=object).reshape(-1))
+    b = [np.float64(v) for v in b0]
+    for tk, i in zip(t, dirs):
+        b[i] = b[i] + tk
+    sym = any(V.is_sym(e) for e in b)
+    return body_solver({"b": np.array(b, dtype=object if sym else float)}, A, mode)
+
+
+def case_family(ctx, A, b0, dirs, mode):
+    t = V.real_array("t", (len(dirs),))
+    ctx.box_terms = []
+    for e in t:
+        c = z3.And(e.t >= -SPAN, e.t <= SPAN)
+        ctx.box_terms.append(c)
+        ctx.assume(c)
+    ctx.set_case(A=A, b0=b0, dirs=dirs, mode=mode)
+    _guarded(ctx, lambda: hx.run_body(ctx, body_family, {"t": t}, {"A": A, "b0": b0, "dirs": dirs, "mode": mode},
+                                      validate_every=1))
+
+
+# ---------------------------------------------------------------------------------------------------------------
 # level 2: unconstrained solver
 
 def body_unconstrained(inp, A, ranges, force):
@@ -900,7 +938,7 @@ MATS4 = [
     [[4.0, 1.0, 2.0, 0.0], [1.0, 3.0, 0.0, 1.0], [2.0, 0.0, 5.0, 1.0], [0.0, 1.0, 1.0, 2.0]],          # moderately correlated, mixed sparsity
 ]
 
-BODIES = {"case_solver": body_solver, "case_unconstrained": body_unconstrained, "case_inversion": body_inversion}
+BODIES = {"case_family": body_family, "case_solver": body_solver, "case_unconstrained": body_unconstrained, "case_inversion": body_inversion}
 EXPLORER_OPTS = {"timeout_ms": 20000, "max_paths": 20000, "max_decisions": 150, "logic": "QF_NRA", "max_candidates": 3}
 BUDGET_S = {"quick": 900, "thorough": 2300}
 
@@ -914,15 +952,20 @@ BOUNDS = {
              "formalisms; two linear-function objects; two successive inversions sharing one Preloads.curvature_matrix); positive-only "
              "solver with 2-3 image values symbolic and the others a fixed signed pattern: two linear-function objects (n=3, cold and warm), "
              "rectangular 3x5 mesh with force_edge_pixels_to_zeros (3 free parameters; mapping+cold, w_tilde+warm, Preloads history, "
-             "force_edge_image_pixels_to_zeros). Every solver comparison forks (decision margin 2^-30).",
+             "force_edge_image_pixels_to_zeros). Strongly correlated systems: 3 SPD matrices of n=5 (nearly collinear columns, condition "
+             "numbers 1.5e3-7e3, entries on a 1/64 grid) with the right-hand side restricted to affine families b = b0 + sum t_k e_i, "
+             "t_k symbolic in [-4,4], through a noise-like b0: all 5 coordinate segments (cold; 3 warm) per matrix and the plane (e_0,e_3) "
+             "for two matrices (the full box is beyond nlsat for such matrices). Every solver comparison forks (decision margin 2^-30).",
     "thorough": "as quick plus 4 SPD matrices of n=3 and 2 of n=4 (tridiagonal, moderately correlated), all D in [-10,10]^n, cold and warm; "
                 "aa.Inversion positive-only with 3 symbolic image values on 3x5 meshes over 3x3 and 3x4 pixel regions (both formalisms, "
                 "cold/warm), 4x4 mesh over 4x4 pixels (4 free parameters, 4 symbolic values), force_edge_pixels_to_zeros with "
-                "linear-function objects only.",
+                "linear-function objects only; strongly correlated n=5 systems: all 10 coordinate planes (2 symbolic parameters) per matrix "
+                "cold, 2 planes warm, all segments cold and warm.",
 }
 OUTSIDE = [
-    "symbolic matrices F+H (the matrix is always concrete); n > 4 free parameters; strongly correlated n = 4 systems "
-    "(condition number >= 25: nlsat leaves some decision regions undecided within 20 s)",
+    "symbolic matrices F+H (the matrix is always concrete); n > 5 free parameters; the full right-hand-side box for strongly correlated "
+    "systems (n = 4 with condition number >= 25 already leaves decision regions undecided by nlsat within 20 s; 3 symbolic parameters at n = 5 "
+    "do not finish in 5 minutes): those are covered on 1- and 2-parameter affine families only",
     "right-hand sides within 2^-30 (2^-29 for comparisons against the solver's 1e-16 tolerance) of a decision boundary of the "
     "active-set algorithm (decision-margin policy); float64 cancellation inside d + alpha (s - d)",
     "positive-only solver with a rectangular mapper and force_edge_pixels_to_zeros=False (>= 9 free parameters)",
@@ -981,6 +1024,27 @@ def cases(tier):
         for A in MATS4:
             for mode in ("cold", "warm"):
                 out.append(("case_solver", {"A": A, "mode": mode}, {"split": 4}))
+    # --- strongly correlated n = 5 systems, right-hand side in low-dimensional affine families through b0
+    deep = {"max_decisions": 400}
+    for e in CORR5:
+        Mm = np.array(e["A"])
+        assert np.array_equal(Mm, Mm.T) and np.linalg.eigvalsh(Mm).min() > 1e-3, "CORR5 must be SPD"
+        for i in range(5):
+            out.append(("case_family", {"A": e["A"], "b0": e["b0"], "dirs": [i], "mode": "cold"}, deep))
+        for i in ((0, 2, 4) if not thorough else range(5)):
+            out.append(("case_family", {"A": e["A"], "b0": e["b0"], "dirs": [i], "mode": "warm"}, deep))
+    pairs_q = [(0, [0, 3]), (1, [0, 3])]
+    for k, d in pairs_q:
+        out.append(("case_family", {"A": CORR5[k]["A"], "b0": CORR5[k]["b0"], "dirs": d, "mode": "cold"}, dict(deep, split=3)))
+    if thorough:
+        import itertools
+        for k, e in enumerate(CORR5):
+            for d in itertools.combinations(range(5), 2):
+                if (k, list(d)) in pairs_q:
+                    continue
+                out.append(("case_family", {"A": e["A"], "b0": e["b0"], "dirs": list(d), "mode": "cold"}, dict(deep, split=2)))
+            for d in ((0, 3), (1, 4)):
+                out.append(("case_family", {"A": e["A"], "b0": e["b0"], "dirs": list(d), "mode": "warm"}, dict(deep, split=2)))
     # --- unconstrained solver
     lin = {}
     for A in MATS2[:3]:
